@@ -120,12 +120,13 @@ func NewSP(c Config) *saml.ServiceProvider {
 	case "metanouse":
 		desc.KeyDescriptors = []saml.KeyDescriptor{kd("", idp.CertB64()), kd("encryption", fix.Get("idpenc").CertB64())}
 	case "pinned":
-		// metadata carries a decoy (the encryption-only key); the pinned certificate is what counts
-		desc.KeyDescriptors = []saml.KeyDescriptor{kd("encryption", fix.Get("idpenc").CertB64())}
+		// metadata carries decoys (the encryption-only key and ANOTHER signing key): the pinned
+		// certificate is what counts, the metadata certificates must not be trusted beside it
+		desc.KeyDescriptors = []saml.KeyDescriptor{kd("encryption", fix.Get("idpenc").CertB64()), kd("signing", fix.Get("idp2").CertB64())}
 		s := idp.CertB64()
 		sp.IDPCertificate = &s
 	case "fp256", "fp512":
-		desc.KeyDescriptors = []saml.KeyDescriptor{kd("encryption", fix.Get("idpenc").CertB64())}
+		desc.KeyDescriptors = []saml.KeyDescriptor{kd("encryption", fix.Get("idpenc").CertB64()), kd("signing", fix.Get("idp2").CertB64())}
 		alg := "http://www.w3.org/2001/04/xmlenc#sha256"
 		fp := fingerprint(idp.Cert.Raw, "sha256")
 		if c.Trust == "fp512" {
